@@ -979,3 +979,39 @@ def rf65(run):
                               '(required: %s): on such a path sp is not 16-byte aligned after the prologue, and memory obtained by alloca '
                               '(sub sp, round16(size)) in that function is misaligned' % (F.src(amt)[:60], name, sorted(r), want), line=x['l'])
     return n
+
+
+# ---------------------------------------------------------------------------------------------
+# RF84: moves out of the result registers are placed directly after the call (reverse result order)
+# ---------------------------------------------------------------------------------------------
+
+def rf84(run):
+    rule = 'RF84'
+    run.rule(rule, 'x86-64 machinize_call: in the loop over the prototype results every move from a result hard register is inserted with the '
+                   'call instruction itself as anchor, so the moves end up in reverse result order.  The two x87 results rely on it: the '
+                   'move from st1 is `fxch; fstp` and must run while st0 still holds the first result; `fstp` of st0 first leaves st1\'s '
+                   'value in st0 and the swap then reads an empty register')
+    gen = run.tu('gen')
+    f = gen.func('machinize_call')
+    run.functions_analysed.add(('gen', f.name))
+    loops = [l for l in f.walk() if l['k'] == 'ForStmt' and l['c'][1] is not None and 'nres' in F.src(l['c'][1])]
+    n = 0
+    for l in loops:
+        for x in F.walk(l['c'][3]):
+            if x['k'] == 'CallExpr' and x.get('callee') in ('MIR_insert_insn_after', 'gen_add_insn_after'):
+                a = F.call_args(x)
+                if F.src(F.strip(a[-1])) != 'new_insn':
+                    continue
+                anchor = F.src(F.strip(a[-2]))
+                n += 1
+                ok = anchor == 'call_insn'
+                run.ob(rule, (x['l'],), ok, {'site': '%s:%d' % (f.relfile(), x['l']), 'anchor of the result move': anchor})
+                if not ok:
+                    run.violation(rule, f, 'result move anchored at %s' % anchor, 'the move out of a result register is inserted after `%s` instead '
+                                  'of directly after the call: the moves then follow the prototype order, and for two long double results '
+                                  '(st0, st1) the second one is read after st0 has been popped (NaN / stale value, x87 stack unbalanced)' % anchor,
+                                  line=x['l'])
+    if n == 0:
+        raise F.AnalysisBroken('machinize_call: insertion of the result moves not found')
+    # the pattern the order relies on: LDMOV from st1 swaps first
+    return n
